@@ -11,10 +11,12 @@ attribute [local grind] holds holdsU noU inQ waitExp needTok setPopped b2n isTim
 
 set_option maxHeartbeats 1600000
 
+attribute [local grind →] isStop_facts
+
 theorem exposed_step (s s' : St) (hB : Inv2 s) (e : Ev) (w : Nat)
-    (hc : s.curOp w = .swait) (he : exposed (s.pc w) = true) (h : step s e = some s') :
+    (hc : s.curOp w = .swait false) (he : exposed (s.pc w) = true) (h : step s e = some s') :
     (∃ x z d, e = .popAll x z w d) ∨ (∃ x z d, e = .popResume x z w d) ∨ e = .woke w ∨
-    (s'.curOp w = .swait ∧ exposed (s'.pc w) = true) := by
+    (s'.curOp w = .swait false ∧ exposed (s'.pc w) = true) := by
   have hop := hB.opOk w
   cases e
   case popAll t z g d =>
